@@ -747,6 +747,137 @@ def t_forward_deep(rng, depth, in_function, nest_first=True):
         [('let', 'r', call1, INT), ('let', 'r2', ('c', 'add', [call1, ('i', 1)]), INT)]
 
 
+# ---- the forward gate on dependency graphs -----------------------------------------------------------------------
+def gate_graph(rng, in_function):
+    """1-4 forward functions, 0-3 helper functions, implementations and helpers calling each other in a random
+    graph (cycles allowed; every body is guarded `if(x <= 0, c, callee(x-1) + ...)`), declarations in a random order,
+    and ONE use at a random position, in one of the positions a use can have: the owning scope (call / as a value), a
+    nested function body invoked early (a helper: plain, with an inner function, with a lambda), a lambda invoked
+    at once, a default parameter value.  Returns (decls, expected_safe): the independent oracle — does the use reach,
+    through the bodies of the functions it calls and the implementations given so far, a forward function that has
+    no implementation yet at the point of the invocation."""
+    k = rng.randrange(1, 5)
+    m = rng.randrange(0, 4)
+    F = [f'f{i}' for i in range(k)]
+    Wn = [f'w{j}' for j in range(m)]
+    never = {f for f in F if rng.random() < 0.2}
+    events = [('fwd', f) for f in F] + [('impl', f) for f in F if f not in never] + [('helper', w) for w in Wn] + [('use', None)]
+    while True:
+        rng.shuffle(events)
+        pos = {e: i for i, e in enumerate(events)}
+        if all(pos[('fwd', f)] < pos[('impl', f)] for f in F if f not in never) and pos[('use', None)] > 0 \
+                and any(e[0] in ('fwd', 'helper') for e in events[:pos[('use', None)]]):
+            break
+    start = k + m + 2
+    X = ('v', 'x')
+
+    def body(callees, const):
+        if not callees:
+            return ('i', const)
+        calls = [('c', c, [('c', 'sub', [X, ('i', 1)])]) for c in callees]
+        return ('c', 'if', [('c', 'le', [X, ('i', 0)]), ('i', const), add_all(calls + [('i', 1)])])
+
+    declared, impl_at, deps, ds = [], {}, {}, []
+    use_form, target, safe = None, None, None
+    for idx, (kind, name) in enumerate(events):
+        if kind == 'fwd':
+            ds.append(fwd(name, [('x', INT)], INT))
+            declared.append(name)
+        elif kind == 'impl':
+            callees = rng.sample(declared, rng.randrange(0, min(2, len(declared)) + 1))
+            deps[('impl', name)] = list(callees)
+            impl_at[name] = idx
+            ds.append(('fn', name, [('x', INT, None)], INT, [], body(callees, 10 + idx)))
+        elif kind == 'helper':
+            if not declared:
+                callees = []
+            else:
+                callees = rng.sample(declared, rng.randrange(1, min(2, len(declared)) + 1))
+            deps[('helper', name)] = list(callees)
+            shape = rng.choice(['plain', 'inner', 'lambda'])
+            if shape == 'plain' or not callees:
+                d = ('fn', name, [('x', INT, None)], INT, [], body(callees, 100 + idx))
+            elif shape == 'inner':
+                inner = ('fn', 'in2', [('x', INT, None)], INT, [], body(callees, 100 + idx))
+                d = ('fn', name, [('x', INT, None)], INT, [inner], ('c', 'in2', [X]))
+            else:
+                lam = ('lam', [('x', INT, None)], [], body(callees, 100 + idx), INT)
+                d = ('fn', name, [('x', INT, None)], INT, [], ('ce', lam, [X]))
+            ds.append(d)
+            declared.append(name)
+        else:
+            target = rng.choice(declared)
+            use_form = rng.choice(['call', 'value', 'lambda', 'default', 'call', 'nested-now'])
+            # the oracle: reachability at this point of the text
+            implemented = {f for f, at in impl_at.items() if at < idx}
+            seen, stack, safe = set(), [target], True
+            while stack:
+                n = stack.pop()
+                if n in seen:
+                    continue
+                seen.add(n)
+                if n in F:
+                    if n not in implemented:
+                        safe = False
+                        break
+                    stack.extend(deps[('impl', n)])
+                else:
+                    stack.extend(deps[('helper', n)])
+            arg = ('i', start)
+            if use_form == 'call':
+                ds.append(('let', 'u', ('c', target, [arg]), INT))
+            elif use_form == 'value':
+                ds.append(('let', 'hv', ('v', target), None))
+                ds.append(('let', 'u', ('ce', ('v', 'hv'), [arg]), INT))
+            elif use_form == 'lambda':
+                ds.append(('let', 'u', ('ce', ('lam', [('y', INT, None)], [], ('c', target, [('v', 'y')]), INT), [arg]), INT))
+            elif use_form == 'default':
+                ds.append(('fn', 'dfl', [('q', INT, ('c', target, [arg]))], INT, [], ('v', 'q')))
+                ds.append(('let', 'u', ('c', 'dfl', []), INT))
+            else:
+                via = ('fn', 'via', [('x', INT, None)], INT,
+                       [('fn', 'deep', [('x', INT, None)], INT, [], ('c', target, [X]))], ('c', 'deep', [X]))
+                ds.append(via)
+                ds.append(('let', 'u', ('c', 'via', [arg]), INT))
+    tagform = use_form
+    if in_function:
+        main = ('fn', 'main', [('bias', INT, None)], INT, ds, ('c', 'add', [('v', 'u'), ('v', 'bias')]))
+        ds = [main, ('let', 'z', ('c', 'main', [('i', 1000)]), INT)]
+    return ds, safe, tagform
+
+
+def gate_graph_family(chk, n):
+    """runs the family: an unsafe use must be a compilation error of class MissingForwardImplementation; a safe one is
+    a FCase for the three-way / structural / cell-level ties.  Returns the safe cases."""
+    rng = chk.rng
+    safe_cases, unsafe = [], []
+    for i in range(n):
+        ds, safe, form = gate_graph(rng, in_function=(i % 3 == 2))
+        c = FCase(ds, "gate-graph")
+        # the two oracles agree: the static reachability and the reference evaluator with forward boxes
+        co, _ = c.oracle()
+        dyn_safe = not co["outcome"].startswith("oracle-stuck forward function used before its definition")
+        if co["outcome"].startswith("oracle-") and dyn_safe:
+            chk.violation("machinery:oracle:gate-graph", f"the reference evaluator cannot run a gate-graph program: {co['outcome']}", c.replay(), no_input=True)
+            continue
+        if dyn_safe != safe:
+            chk.violation("machinery:oracle:gate-graph-disagree", f"static oracle says safe={safe}, reference evaluator says {co['outcome']}", c.replay(), no_input=True)
+            continue
+        chk.count(f"gate-graph:{form}:{'safe' if safe else 'unsafe'}")
+        (safe_cases if safe else unsafe).append(c)
+    res = run_harness([c.req() for c in unsafe])
+    for c, r in zip(unsafe, res):
+        chk.evaluations += 1
+        ci = cg.canon_impl(r, c.names)
+        if not ci["outcome"].startswith("compile-err MissingForwardImplementation"):
+            kind = ci["outcome"].split(" ")[0].split(":")[0]
+            chk.violation(f"gate-graph:unsafe-use:{'accepted-' + kind if kind in ('ok', 'panic', 'viol') else kind}",
+                          f"a use that reaches a forward function without implementation was not rejected with MissingForwardImplementation: "
+                          f"the implementation says {json.dumps(ci)[:400]}",
+                          c.replay({"impl": ci, "expected": {"outcome": "compile-err MissingForwardImplementation"}}))
+    return safe_cases, unsafe
+
+
 def t_forward_escape(variant):
     """KNOWN DEFECT family: a function that captured a not yet fulfilled forward function reads it, at run time,
     through the *caller's* scope chain (runtime_scope.rs PendingCapture + the scope-parent search by id)"""
@@ -850,6 +981,14 @@ def forward_gate(chk):
         if not ok:
             chk.violation(f"gate:{name}", f"forward gate: expected {want}, the implementation says {got[:200]} on: {src}",
                           {"src": src, "get": [], "expected": {"outcome": want}})
+    # host side, transitively: w needs g1, g1 is implemented on top of the never implemented g0
+    src2 = "forward fn g0(x:int)->int; forward fn g1(x:int)->int; fn w()->int{ g1(1) } fn g1(x:int)->int{ g0(x) } fn ok()->int{ 5 }"
+    r2 = run_harness([{"op": "run", "src": src2, "get": [], "calls": ["w", "ok"]}])[0]
+    chk.evaluations += 1
+    calls2 = r2.get("calls")
+    if not (isinstance(calls2, list) and len(calls2) == 2 and calls2[0].startswith("!forwardref g0") and "5" in calls2[1]):
+        chk.violation("gate:host-transitive", f"host-side forward gate is not transitive: get_user_defined_function answered {calls2 if calls2 is not None else json.dumps(r2)[:200]} for w (needs g1, whose implementation needs the unimplemented g0) on: {src2}",
+                      {"src": src2, "calls": ["w", "ok"]})
     # host side: a function with an unfulfilled requirement is refused by get_user_defined_function
     src = "forward fn g(x:int)->int; fn f()->int{ g(1) } fn ok()->int{ 5 }"
     r = run_harness([{"op": "run", "src": src, "get": [], "calls": ["f", "ok", "g"]}])[0]
@@ -958,6 +1097,8 @@ def run(chk):
             for rep in range(2 if quick else 12):
                 cases.append(FCase(t_forward_deep(rng, depth, in_function), f"forward-deep-{depth}"))
         cases.append(FCase(t_forward_deep(rng, depth, True, nest_first=False), f"forward-deep-{depth}"))
+    gsafe, gunsafe = gate_graph_family(chk, 60 if quick else 1500)
+    cases += gsafe
     cases.append(FCase(t_forward_escape(0), "fwd-escape"))
     cases.append(FCase(t_forward_escape(1), "fwd-escape"))
     cases.append(FCase(t_forward_reenter(), "fwd-reenter"))
@@ -984,7 +1125,7 @@ def run(chk):
     forward_gate(chk)
 
     # ---- (b) structural
-    progs = [(c.tag, c.ds, c.src) for c in cases]
+    progs = [(c.tag, c.ds, c.src) for c in cases] + [("gate-graph-unsafe", c.ds, c.src) for c in gunsafe]
     structural(chk, progs)
     # gate programs through the scope model too (error class must agree) — written as ASTs where it matters
     gate_asts = [
@@ -1022,7 +1163,7 @@ def run(chk):
 
     return chk.finish(rule="generated core programs + targeted templates (captures at ancestor distance 1..6 through fn/lambda mixes, the same cell index captured at several distances (depth 3..6, every level's two parameters mentioned by every inner level in shuffled order), shadowing chains "
                            "incl. same-scope redeclaration, escaping closures, recursion through captured recursion cells, displaying defaults, "
-                           "forward declarations incl. a forward function referenced 3..5 levels below its declaration with decoys at the same cell index) three ways (implementation / Lean core model / Python reference evaluator); the same programs' "
+                           "forward declarations incl. a forward function referenced 3..5 levels below its declaration with decoys at the same cell index, the forward gate on random dependency graphs of 1..4 forward functions with the use in every scope position) three ways (implementation / Lean core model / Python reference evaluator); the same programs' "
                            "compiled structure (cells, capture pairs, declarations, Value references, forward-requirement counts) real compiler vs "
                            "Lean scope model; forward-gate programs; identifier spellings over {i,t,e,m,0,1,9,_,a} up to length 4; "
                            "non-trivial = targeted or containing a lambda (behavioural), capture chain of length >= 2 (structural); distinct by source text")
